@@ -81,3 +81,73 @@ theorem ordered_no_deadlock (rank : Lock → Nat) (ts : List Th)
   simp only [hlu, hlm] at this
   omega
 end PxL
+
+/-! ## Class-level version used by C12
+
+Locks are instances; the static analysis only sees *classes* (owner struct + field path). `cls` maps an instance to its
+class, `E` is a set of (held class, wanted class) pairs that covers every thread, `rank` orders the classes.
+A wait-for resource that has several holders at once (a `sync.WaitGroup`: `Add` = become a holder without ever blocking,
+`Wait` = block until nobody holds it; "in-flight handlers" for `http.Server.Shutdown`) fits the same model: `held` may
+contain the same resource in several threads, `next = some l` blocks until no thread holds `l`. -/
+namespace PxL
+
+/-- the system hangs: somebody waits, nobody who waits can proceed, and every thread that holds something waits too
+    (a thread with `next = none` is either running — then it holds no obligation to be stuck — or finished, and a
+    finished thread holds nothing) -/
+def Hung (ts : List Th) : Prop :=
+  Deadlocked ts ∧ ∀ t ∈ ts, t.held ≠ [] → t.next.isSome
+
+/-- every (held, wanted) pair of every thread is, at class level, in `E` -/
+def Covered {C : Type} (cls : Lock → C) (E : List (C × C)) (ts : List Th) : Prop :=
+  ∀ t ∈ ts, ∀ l, t.next = some l → ∀ h ∈ t.held, (cls h, cls l) ∈ E
+
+/-- ranked edge set ⇒ no hang; any number of threads, any number of lock instances per class.
+    In particular no thread ever waits for an instance of a class of which it already holds an instance
+    (`(c, c) ∈ E` contradicts `rank c < rank c`), so a self-deadlock on a non-reentrant mutex is excluded too. -/
+theorem ranked_no_hang {C : Type} (cls : Lock → C) (rank : C → Nat) (E : List (C × C))
+    (hE : ∀ e ∈ E, rank e.1 < rank e.2) (ts : List Th) (hcov : Covered cls E ts) : ¬ Hung ts := by
+  intro h
+  apply ordered_no_deadlock (fun l => rank (cls l)) ts
+  · intro t ht l hl hh hmem
+    exact hE (cls hh, cls l) (hcov t ht l hl hh hmem)
+  · exact h
+
+/-- progress form: if some thread waits (and finished threads hold nothing), then some thread that waits can proceed or
+    some thread holding a lock is not waiting (it is inside a critical section and runs) -/
+theorem ranked_progress {C : Type} (cls : Lock → C) (rank : C → Nat) (E : List (C × C))
+    (hE : ∀ e ∈ E, rank e.1 < rank e.2) (ts : List Th) (hcov : Covered cls E ts)
+    (hw : ∃ t ∈ ts, t.next.isSome) :
+    (∃ t ∈ ts, t.next.isSome ∧ canStep ts t) ∨ (∃ t ∈ ts, t.held ≠ [] ∧ t.next = none) := by
+  apply Classical.byContradiction
+  intro hno
+  apply ranked_no_hang cls rank E hE ts hcov
+  refine ⟨⟨hw, ?_⟩, ?_⟩
+  · intro t ht hs hc
+    exact hno (Or.inl ⟨t, ht, hs, hc⟩)
+  · intro t ht hh
+    cases hn : t.next with
+    | some l => simp
+    | none => exact absurd (Or.inr ⟨t, ht, hh, hn⟩) hno
+
+/-- the hypotheses are satisfiable and the conclusion is not vacuous: two threads, two lock instances of two classes,
+    taken in rank order by both — one of them waits, the other runs -/
+example : ¬ Hung [{ held := [0], next := some 1 }, { held := [1], next := none }] :=
+  ranked_no_hang (fun l => l) (fun c => c) [(0, 1)] (by decide) _ (by
+    intro t ht l hl h hh
+    simp at ht
+    rcases ht with rfl | rfl
+    · simp at hl hh; subst hl; subst hh; simp
+    · simp at hl)
+
+/-- and without the rank condition the conclusion fails: the classic inversion hangs -/
+example : Hung [{ held := [0], next := some 1 }, { held := [1], next := some 0 }] := by
+  refine ⟨⟨⟨_, List.mem_cons_self, rfl⟩, ?_⟩, ?_⟩
+  · intro t ht _ hc
+    simp at ht
+    rcases ht with rfl | rfl
+    · exact absurd (hc { held := [1], next := some 0 } (by simp)) (by simp)
+    · exact absurd (hc { held := [0], next := some 1 } (by simp)) (by simp)
+  · intro t ht _
+    simp at ht
+    rcases ht with rfl | rfl <;> rfl
+end PxL
